@@ -352,10 +352,10 @@ const (
 
 // Format formats the node.
 func (node *Select) Format(buf *TrackedBuffer) {
-	buf.Myprintf("select %v%s%s%s%v from %v%v%v%v%v%v%s",
+	buf.Myprintf("select %v%s%s%s%v from %v%v%v%v%v%v%v%s",
 		node.Comments, node.Cache, node.Distinct, node.Hints, node.SelectExprs,
 		node.From, node.Where,
-		node.GroupBy, node.Having, node.OrderBy,
+		node.GroupBy, node.Having, node.Trigger, node.OrderBy,
 		node.Limit, node.Lock)
 }
 
@@ -3733,7 +3733,7 @@ type Triggers []Trigger
 
 // Format formats the node.
 func (node Triggers) Format(buf *TrackedBuffer) {
-	prefix := "TRIGGER "
+	prefix := " TRIGGER "
 	for _, n := range node {
 		buf.Myprintf("%s%v", prefix, n)
 		prefix = ", "
@@ -3774,7 +3774,7 @@ type EndOfStreamTrigger struct {
 }
 
 func (w *EndOfStreamTrigger) Format(buf *TrackedBuffer) {
-	buf.Myprintf("ON WATERMARK")
+	buf.Myprintf("ON END OF STREAM")
 }
 
 func (w *EndOfStreamTrigger) walkSubtree(visit Visit) error {
@@ -3786,7 +3786,7 @@ type DelayTrigger struct {
 }
 
 func (w *DelayTrigger) Format(buf *TrackedBuffer) {
-	buf.Myprintf("DELAY %v", w.Delay)
+	buf.Myprintf("AFTER DELAY %v", w.Delay)
 }
 
 func (w *DelayTrigger) walkSubtree(visit Visit) error {
